@@ -1096,7 +1096,7 @@ Section Vertex.
       apply negb_true_iff in Hopt. destruct (e_rec e) eqn:R; [discriminate|].
       cbn. unfold non_binding, locally_non_binding. cbn. rewrite R, Hopt, NB1.
       destruct (vi_is_resolve vi); (split; [reflexivity|]); (split; [reflexivity|]); (split; [reflexivity|]);
-        exists comp; (split; [reflexivity|]); left; exists e; rewrite <- Ev; auto 10.
+        exists comp; (split; [exact Hcomp|]); left; exists e; rewrite <- Ev; auto 10.
     - destruct (flat_mapM_In _ _ _ _ Hfolded Hm) as (s & ys & Hs & Hys & Hmy).
       destruct s as [e|h sub]; [injection Hys as <-; contradiction|].
       destruct (N.eqb (fo_from h) (v_vid v) && String.eqb (fo_name h) name) eqn:C; [|injection Hys as <-; contradiction].
@@ -1106,6 +1106,6 @@ Section Vertex.
       unfold ei_mandatory in Hmand. cbn in Hmand. destruct req; [|discriminate].
       cbn. unfold non_binding. cbn. rewrite NB1.
       destruct (vi_is_resolve vi); (split; [reflexivity|]); (split; [reflexivity|]); (split; [reflexivity|]);
-        exists comp; (split; [reflexivity|]); right; exists h, sub; rewrite <- Ev; auto 10.
+        exists comp; (split; [exact Hcomp|]); right; exists h, sub; rewrite <- Ev; auto 10.
   Qed.
 End Vertex.
